@@ -40,6 +40,13 @@ for key, c in sorted(confirm.items()):
         p = os.path.join(SRC, key, f)
         if os.path.exists(p):
             shutil.copy(p, os.path.join(dst, f))
+    rebased = None
+    ph = os.path.join(SRC, key, 'patch_head.diff')
+    if os.path.exists(ph):
+        # the sub-agent's patch no longer applies to /repo HEAD (a later fix touched the same lines): the same change carried over by hand
+        shutil.copy(os.path.join(SRC, key, 'patch.diff'), os.path.join(dst, 'patch_orig.diff'))
+        shutil.copy(ph, os.path.join(dst, 'patch.diff'))
+        rebased = 'patch.diff is the same change carried over to the current /repo HEAD (context or surrounding code changed by a later fix); patch_orig.diff is what the sub-agent delivered and what was confirmed'
     notes = open(os.path.join(SRC, key, 'notes.txt')).read() if os.path.exists(os.path.join(SRC, key, 'notes.txt')) else ''
     meta = {
         'property': prop,
@@ -50,6 +57,8 @@ for key, c in sorted(confirm.items()):
         'detected': any(v['rc'] == 1 for v in detect.get(key, {}).values()),
         'how_to_rerun': 'tools/try_seeded.sh seeded/%s-%s/patch.diff %s' % (prop, mk, ' '.join(sorted(detect.get(key, {prop: 0})))),
     }
+    if rebased:
+        meta['rebased'] = rebased
     json.dump(meta, open(os.path.join(dst, 'meta.json'), 'w'), indent=1)
     n += 1
 print('kept', n)
